@@ -603,7 +603,8 @@ def case_component(ctx, name, specdir, module, cfgs, gocmd, overlays=(), extra_a
     outs = []
     ncases = 0
     for cfg in cfgs:
-        r = ctx.tlc(specdir, module, cfg, workers=workers, timeout=tlc_timeout, tag="%s_%s" % (name, os.path.splitext(cfg)[0]))
+        r = ctx.tlc(specdir, module, cfg, workers=workers, timeout=tlc_timeout, tag="%s_%s" % (name, os.path.splitext(cfg)[0]),
+                    extra_args=["-seed", str(ctx.seed)])
         if r["errors"]:
             raise Inconclusive("TLC failed while generating cases (%s %s):\n%s" % (module, cfg, r["tail"]))
         n = int(subprocess.run(["grep", "-c", '^"{', r["out"]], capture_output=True, text=True).stdout.strip() or 0)
